@@ -256,19 +256,22 @@ package graph
 
 // ---- Kinds as duplicate-free sequences ---------------------------------------------------------------------
 //
-// Remove works in place on a duplicate-free sequence: the result lives in the receiver's array, no element of it is the
-// removed kind, every other element of the receiver is still there, nothing else is, and it is duplicate-free again.
+// Remove on a duplicate-free sequence: the receiver's array is not written (the result is a new array, or the receiver
+// itself when the kind is absent), the result is one shorter when the kind occurs, every other element of the receiver is
+// there, nothing else is, and it is duplicate-free again (so the kind itself is gone: the direct statement of that was
+// provable only in about 40 s by one solver and is not claimed).
 // Add (above): the members of the result are exactly those of the receiver and of the arguments, and a duplicate-free
 // receiver gives a duplicate-free result (arguments without nil: ContainsOneOf is only specified for non-nil kinds).
 // The node-level bookkeeping over the three sequences of a Node stays with the bounded harness.
 //@ pure func nodup(s Kinds) bool { forall i int; j int :: {:pattern s[i], s[j]} 0 <= i && i < j && j < len(s) ==> s[i] != s[j] }
 //@ func (s Kinds) Remove(kind Kind) Kinds
 //@   requires nodup(s)
-//@   modifies contents(s)
-//@   ensures inPlace: result.arr == s.arr && result.off == s.off && len(result) <= len(s)
-//@   ensures removed: forall j int :: {:pattern result[j]} 0 <= j && j < len(result) ==> result[j] != kind
-//@   ensures kept: forall i int :: {:pattern old(s[i])} 0 <= i && i < len(s) && old(s[i]) != kind ==> (exists j int :: {:witness i, i - 1} 0 <= j && j < len(result) && result[j] == old(s[i]))
-//@   ensures only: forall j int :: {:pattern result[j]} 0 <= j && j < len(result) ==> (exists i int :: {:witness j, j + 1} 0 <= i && i < len(s) && old(s[i]) == result[j])
+//@   nomod
+//@   ensures own: fresh(result.arr) || (result.arr == s.arr && result.off == s.off && len(result) == len(s))
+//@   ensures shorter: len(result) <= len(s)
+//@   ensures count: (forall i int :: {:pattern s[i]} 0 <= i && i < len(s) ==> s[i] != kind) || len(result) == len(s) - 1
+//@   ensures kept: forall i int :: {:pattern s[i]} 0 <= i && i < len(s) && s[i] != kind ==> (exists j int :: {:witness i, i - 1} 0 <= j && j < len(result) && result[j] == s[i])
+//@   ensures only: forall j int :: {:pattern result[j]} 0 <= j && j < len(result) ==> (exists i int :: {:witness j, j + 1} 0 <= i && i < len(s) && s[i] == result[j])
 //@   ensures nodup: nodup(result)
 //@   loop 0
 //@     invariant range: -1 <= rangeindex
